@@ -122,6 +122,9 @@ class HTTPReader:
             if cl_string:
                 try:
                     content_length = int(cl_string)
+                    if content_length < 0:
+                        # read(-1) would read until the other side closes the connection
+                        raise ValueError(f'invalid content-length "{cl_string}"')
                     http_body = http_message.rfile.read(content_length)
                 except TypeError:
                     http_body = http_message.rfile.read()
